@@ -10,6 +10,7 @@ import (
 	"math/big"
 	"os"
 	"regexp"
+	"runtime/debug"
 	"sort"
 	"strings"
 	"sync"
@@ -94,6 +95,9 @@ type checker struct {
 
 // Run explores all jobs (scripts in parallel) and evaluates the oracles of `prop` (C07 or C08).
 func Run(run *ev.Run, prop string, jobs []Job) {
+	// the exploration allocates quickly on 16 cores; keep the heap from running far ahead of the GC
+	debug.SetGCPercent(40)
+	debug.SetMemoryLimit(12 << 30)
 	c := &checker{run: run, prop: prop, keyOK: map[string]bool{}, outcomes: map[string]int{}}
 	type unit struct {
 		job *Job
@@ -485,6 +489,7 @@ func (c *checker) disqReason(cfg *dkgsys.Config, st *dkgsys.State, z int) string
 	complainers := map[int]int{} // complainer -> phase of first well-formed complaint against z
 	type ans struct {
 		phase int
+		seq   int
 		data  []byte
 	}
 	answers := map[int][]ans{}
@@ -507,9 +512,14 @@ func (c *checker) disqReason(cfg *dkgsys.Config, st *dkgsys.State, z int) string
 			}
 		case strings.HasPrefix(o, "ans:"):
 			fmt.Sscanf(o, "ans:%d:p%d:%s", &from, &ph, &hx)
+			seq := 0
+			if i := strings.Index(hx, ":#"); i >= 0 {
+				fmt.Sscanf(hx[i+2:], "%d", &seq)
+				hx = hx[:i]
+			}
 			b := ev.UnHex(hx)
 			if from == z && len(b) >= 1 {
-				answers[int(b[0])] = append(answers[int(b[0])], ans{ph, b})
+				answers[int(b[0])] = append(answers[int(b[0])], ans{ph, seq, b})
 			}
 		}
 	}
@@ -539,9 +549,9 @@ func (c *checker) disqReason(cfg *dkgsys.Config, st *dkgsys.State, z int) string
 		if len(as) == 0 {
 			return "complaint-unanswered"
 		}
-		if len(as) > 1 {
-			continue // several different answers: which one counts depends on order; not asserted
-		}
+		// several answers: the FIRST one in the dealer's broadcast order is the one every honest
+		// receiver processes (later ones are flagged as duplicates)
+		sort.Slice(as, func(i, j int) bool { return as[i].seq < as[j].seq })
 		a := as[0].data
 		if len(a) != 33 {
 			return "answer-malformed"
@@ -550,14 +560,20 @@ func (c *checker) disqReason(cfg *dkgsys.Config, st *dkgsys.State, z int) string
 		if s.Sign() == 0 || s.Cmp(refbls.R) >= 0 {
 			return "answer-malformed"
 		}
-		// expected public share of h: sum_j vec[j] * (h+1)^j
-		want := refbls.G2Inf()
-		xp := big.NewInt(1)
-		for j := range vec {
-			want = want.Add(vec[j].Mul(xp))
-			xp = new(big.Int).Mod(new(big.Int).Mul(xp, big.NewInt(int64(h+1))), refbls.R)
+		// expected public share of h: sum_j vec[j] * (h+1)^j   (memoised: few distinct (vector, answer) pairs)
+		ck := fmt.Sprintf("%x|%d|%x", vecP1[0], h, a)
+		wrong, ok := answerCache.Load(ck)
+		if !ok {
+			want := refbls.G2Inf()
+			xp := big.NewInt(1)
+			for j := range vec {
+				want = want.Add(vec[j].Mul(xp))
+				xp = new(big.Int).Mod(new(big.Int).Mul(xp, big.NewInt(int64(h+1))), refbls.R)
+			}
+			wrong = !refbls.G2Gen().Mul(s).Equal(want)
+			answerCache.Store(ck, wrong)
 		}
-		if !refbls.G2Gen().Mul(s).Equal(want) {
+		if wrong.(bool) {
 			return "answer-wrong"
 		}
 	}
@@ -565,6 +581,7 @@ func (c *checker) disqReason(cfg *dkgsys.Config, st *dkgsys.State, z int) string
 }
 
 var vecCache sync.Map
+var answerCache sync.Map
 
 func parseVector(data []byte, t int) ([]refbls.G2, bool) {
 	type res struct {
